@@ -964,7 +964,14 @@ def _vpcmpu(M, ins):
         pred = int(ins.ops[3], 0)
         if pred != 1:
             raise Unsupported("vpcmpud predicate %d" % pred)
-    M.k[kd] = [T.mk("ltu", a[i], b[i]) for i in range(n)] + [T.const(0)] * (16 - n)
+    def ltu(x, y):
+        if x == y:
+            return T.const(0)
+        cx, cy = T.cval(x), T.cval(y)
+        if cx is not None and cy is not None:
+            return T.const(1 if cx < cy else 0)
+        return T.mk("ltu", x, y)
+    M.k[kd] = [ltu(a[i], b[i]) for i in range(n)] + [T.const(0)] * (16 - n)
 
 
 @sem("kmovw")
@@ -1077,7 +1084,10 @@ def arith(op):
             elif op == "xor" and a.key() == b.key():
                 r = G({}, 0)
             elif op == "and" and b.is_const() and is_align_mask(b.c):
-                r = G({T.mk("and64", a.key(), b.c): 1})
+                sid = T.mk("and64", a.key(), b.c)
+                r = G({sid: 1})
+                if dr == "rsp":
+                    M.frame_regs[sid] = "frame"      # the realigned stack pointer is the base of the local frame
             elif w == 4 or (M.is_small(a) and M.is_small(b)):
                 ta, tb = M.lo32(a), M.lo32(b)
                 t = {"and": t_and, "or": t_or, "xor": lambda T, x, y: T.xor(x, y)}[op](T, ta, tb)
